@@ -40,6 +40,11 @@ CHECKS = {
         technique='exhaustive enumeration of labelled ordered trees (all shapes <= n nodes x all container-kind assignments, unique scalar leaves) x every depth 0..height+3 and None; expected AST built by cutting the unlimited AST at the reference nesting level',
         text='For every tree shape up to the node bound and every assignment of 14 container kinds (built-ins, dicts with int/str/bytes/tuple keys, subclasses, a pretty_call user type with and without a hugged argument) the output at every depth is compared, as an AST, with the unlimited output cut at the reference level; above the height the text must equal depth=None. No test passes depth at all.',
         note='trusted: reference level computation (the hugged sole argument keeps its call level, per the anchors); str/bytes dict keys are cut one level late - recorded as known finding C11/str-key-one-level-late and tolerated only in exactly that form'),
+    'C03': dict(
+        category='exploration', design_ref='DESIGN.md 4/C03',
+        technique='exhaustive sweep of every corpus value (union of the other generators: built-in trees, stdlib instances, subclass instances, commented trees, call-style user types, dataclass/attrs instances) over every width 1..L+3 x ribbons x indents; AST of each output compared with the AST at the reference configuration; indentation multiple check',
+        text='For every value of the shared corpus the output at every width from 1 to its one-line length + 3 (capped, plus 79 and 200), three ribbons per width and three (quick) or all eight (thorough) indents must parse to exactly the syntax tree obtained at the reference configuration, and every line must be indented by a multiple of the indent. Equality with one reference is equality between all pairs of configurations. A layout branch that drops, duplicates or reorders an element only when a group breaks at one particular width is invisible to tests that print at 79/71/4 only.',
+        note='trusted: CPython ast; corpus bounds are those of the contributing generators (trees <= 2 nodes quick / 3 thorough, thinned stdlib grids)'),
     'C04': dict(
         category='model_checking', design_ref='DESIGN.md 4/C04',
         technique='explicit enumeration of all document terms <= K nodes x all (width, ribbon) pairs x both strategies on the real engine; membership of each observed SDoc stream in the fully enumerated layout set of the reference semantics',
